@@ -68,6 +68,36 @@ def _enclosing(pmap, node, kinds):
     return cur
 
 
+def _message_only(node, pmap, fdef) -> bool:
+    par = pmap.get(id(node))
+    if not (isinstance(par, ast.Assign) and len(par.targets) == 1 and isinstance(par.targets[0], ast.Name) and par.value is node):
+        return False
+    v = par.targets[0].id
+    # every definition of the local in this function is a string literal
+    for n in ast.walk(fdef):
+        if isinstance(n, ast.Name) and n.id == v and isinstance(n.ctx, ast.Store):
+            st = pmap.get(id(n))
+            if not (isinstance(st, ast.Assign) and isinstance(st.value, ast.Constant) and isinstance(st.value.value, str)):
+                return False
+    uses = [n for n in ast.walk(fdef) if isinstance(n, ast.Name) and n.id == v and isinstance(n.ctx, ast.Load)]
+    if not uses:
+        return False
+    for u in uses:
+        cur = pmap.get(id(u))
+        ok = False
+        while cur is not None and not isinstance(cur, ast.stmt):
+            if isinstance(cur, (ast.JoinedStr, ast.FormattedValue)):
+                ok = True
+            if isinstance(cur, ast.Call) and isinstance(cur.func, ast.Attribute) and cur.func.attr == "format":
+                ok = True
+            if isinstance(cur, ast.BinOp) and isinstance(cur.op, ast.Mod) and isinstance(cur.left, (ast.Constant, ast.JoinedStr)):
+                ok = True
+            cur = pmap.get(id(cur))
+        if not ok:
+            return False
+    return True
+
+
 def _is_exempt_dict_key(node, pmap, cls_name):
     par = pmap.get(id(node))
     if isinstance(par, ast.Dict) and any(k is node for k in par.keys):
@@ -147,6 +177,11 @@ def check(chk):
             if cls is not None and kind == "constant" and _is_exempt_dict_key(node, pmap, cls.name):
                 chk.ok("NAMES.literal", where_fn, stmt, why="table exemption: bookkeeping dict keys", construct=construct,
                        facts={"literal": lit, "exempt": f"{cls.name}.dims keys"})
+                continue
+            # a literal bound to a local that is only ever interpolated into a message (f-string, format, exception /
+            # warning text) names a ROLE in prose, it does not address a dimension
+            if kind == "constant" and fdef is not None and _message_only(node, pmap, fdef):
+                chk.ok("NAMES.literal", where_fn, stmt, why="the literal only reaches message text", construct=construct, facts={"literal": lit}, nontrivial=False)
                 continue
             # derived exemption: names are not configurable for any exported user of the class
             us = users_of(cls)
